@@ -153,6 +153,7 @@ def run(ctx):
         ctx.bad('R17b', 'R17b:Flip_twoparty:range', 'the result does not sum the shares of exactly the participants of this run (%s)' %
                 ('it runs over the qualified set, which the two-party sharing does not rebuild per run' if qual_based else 'no counting loop over [0, n) indexes the shares'), flip)
     r17c(ctx)
+    r17e(ctx)
     (ctx.ok if okr else ctx.bad)('R17b', 'R17b:Flip_twoparty:sum', 'result accumulates the shares modulo q' if okr else 'result is not the sum of the shares modulo q', flip)
 
 
@@ -297,3 +298,90 @@ def r17c(ctx):
                         ctx.bad('R17c', key, 'a share received from party %s is stored in row %s of %s: the row later read for that dealer keeps the old value' % (
                             T.show(peer_s, 2), T.show(row, 2), member), f, line=w[3])
     ctx.floor('R17c', n, 4)
+
+
+def r17e(ctx):
+    """local rules of the multi-party flip (JareckiLysyanskayaEDCF::Flip), the same kind of clauses as for the joint sharings
+    of C15: (1) the own opening a_i, hata_i is broadcast only after the joint sharing returned true -- every party's
+    commitment is fixed by then; (2) the comparison of g^{a_j} h^{hata_j} with the commitment C_{j0} leads on its unequal
+    edge to a complaint against j before the loop goes on; (3) the verdict of the reconstruction of complained-against
+    parties is not dropped; (4) the coin is 0 + the sum of the openings over the members of the qualified set of the
+    sharing, modulo q."""
+    from . import c15
+    prog = ctx.prog
+    f = prog.fn(EDCF + '::Flip', 0)
+    a = ctx.analysis(f)
+    T = a.T
+    n = 0
+    # (1) broadcasts after the sharing
+    nb = 0
+    okb = True
+    for nid, ev in a.all_events('mcall'):
+        if not ev[1].endswith('::Broadcast'):
+            continue
+        nb += 1
+        shared = any(T.node(fa)[0] == 'truthy' and T.node(T.node(fa)[1])[0] == 'mc' and T.node(T.node(fa)[1])[1].endswith('RVSS::Share') for fa in a.instate[nid].facts)
+        if not shared:
+            okb = False
+            ctx.bad('R17e', 'R17e:Flip:reveal@%d' % ev[4], 'an opening is broadcast on a path on which the joint sharing (commitment phase) has not succeeded', f, line=ev[4])
+    if okb and nb:
+        ctx.ok('R17e', 'R17e:Flip:reveal', 'all %d broadcasts of openings happen after the joint sharing returned true' % nb, f)
+    n += 1 if nb else 0
+    # (2) failed opening check => complaint
+    g, h = T.mk('this', 'g'), T.mk('this', 'h')
+    sites = 0
+    for nd in a.cfg.rpo:
+        if nd.kind != 'branch':
+            continue
+        for i, sx in enumerate(nd.succ):
+            for fa in (a.gen.get((nd.id, i)) or ()):
+                fn_ = T.node(fa)
+                if fn_[0] == 'all':
+                    fn_ = T.node(fn_[2])
+                if fn_[0] == 'rel' and fn_[1] == '!=' and sum(1 for x in fn_[2:] if c15.commitment(T, x, g, h)) == 1:
+                    sites += 1
+                    other = [x for x in fn_[2:] if not c15.commitment(T, x, g, h)][0]
+                    okc, where = c15.leads_to_complaint(a, nd, i)
+                    against_c0 = 'C_ik' in T.show(other, 6)
+                    if okc and against_c0:
+                        ctx.ok('R17e', 'R17e:Flip:opening#%d' % sites, 'an opening that does not match the committed value C_j0 leads to a complaint', f, line=nd.line)
+                    elif not okc:
+                        ctx.bad('R17e', 'R17e:Flip:opening#%d' % sites, 'the opening check can fail without a complaint being registered (path reaches line %d first): '
+                                'a party can open to a value it did not commit to and bias the coin' % (where.line if where is not None else 0), f, line=nd.line)
+                    else:
+                        ctx.bad('R17e', 'R17e:Flip:opening#%d' % sites, 'the opening is not compared with the commitment C_j0 of the sharing (%s)' % T.show(other, 4), f, line=nd.line)
+    n += sites
+    # (3) reconstruction verdict
+    rec = [(nid, ev) for nid, ev in a.all_events('mcall') if ev[1].endswith('::Reconstruct')]
+    acc = a.accept_exits()
+    okr = bool(rec) and bool(acc) and all(any(T.node(fa)[0] == 'truthy' and T.node(T.node(fa)[1])[0] == 'mc' and T.node(T.node(fa)[1])[1].endswith('::Reconstruct') for fa in facts) for nd, facts in acc)
+    n += 1
+    (ctx.ok if okr else ctx.bad)('R17e', 'R17e:Flip:reconstruct', 'the flip succeeds only when the reconstruction of the complained-against parties succeeded' if okr else
+                                 'the flip can succeed although the reconstruction of a complained-against party failed (or is not attempted): its opening is then missing from the sum', f)
+    # (4) the coin
+    ap = [p for p in f['params'] if p['n'] == 'a']
+    okc = False
+    seen = 'no accumulation found'
+    if ap:
+        loc = ('v', ap[0]['id'], 'a')
+        q = T.mk('this', 'q')
+        for nid, ev in a.all_events('write'):
+            if ev[1] != loc:
+                continue
+            vn = T.node(ev[2])
+            if vn[0] == 'mod' and vn[2] == q and T.node(vn[1])[0] == 'add':
+                accs = [x for x in T.node(vn[1])[1:] if T.op(x) == 'phi' and T.node(x)[2] == loc]
+                if len(accs) == 1:
+                    lb = a.loop_bound.get(T.node(accs[0])[1])
+                    seen = T.show(lb[0], 4) if lb else 'no counting loop'
+                    zero = any(T.is_int(x, 0) for x in T.phi_src.get((T.node(accs[0])[1], T.node(accs[0])[2]), ()))
+                    body = a.loop_nodes.get(T.node(accs[0])[1], set())
+                    uncond = not any(x.kind == 'branch' and x.id in body and all(y.id in body for y in x.succ) for x in a.cfg.rpo)
+                    if not uncond:
+                        seen = seen + '; members are skipped under a condition'
+                    if lb and zero and uncond and T.contains(lb[0], lambda z: z[0] in ('this', 'fld', 'mem', 'f') and 'QUAL' in str(z).upper()) and 'rvss' in T.show(lb[0], 5):
+                        okc = True
+    n += 1
+    (ctx.ok if okc else ctx.bad)('R17e', 'R17e:Flip:coin', 'the coin is the sum modulo q of the openings over the qualified set of the sharing' if okc else
+                                 'the coin is not accumulated as 0 + sum of the openings over the qualified set of the joint sharing modulo q (loop range: %s)' % seen, f)
+    ctx.floor('R17e', n, 4)
